@@ -1,11 +1,270 @@
-"""Minimal fmt model: Display/Debug of crate types are run from their MIR into a collecting Formatter;
-`format!`/`write!` with plain `{}` pieces are assembled from the Arguments aggregate.  Anything else is Unmodelled."""
+"""fmt model: Display/Debug impls of crate types run from their MIR into a collecting Formatter; `format_args!` templates
+(this nightly's byte-coded form) are decoded for plain `{}` / `{:?}` placeholders.  Width/precision/flags are Unmodelled."""
 import re
 import z3
+from .mir import type_head
 from .values import *
 from .strings import *
-from .std import path, path_rx, trait, some, NONE, ok, err, D, D1, conc, truth, call_trait, tyarg
+from .std import path, path_rx, trait, some, NONE, ok, err, D, D1, conc, truth, call_trait, tyarg, char_string
+
+
+class Fmt:
+    """collecting formatter"""
+    __slots__ = ('parts', 'alternate')
+
+    def __init__(self): self.parts = []; self.alternate = False
+
+
+def new_formatter(): return Ref(Cell(Opaque('Formatter', Fmt())))
+
+
+def fmt_of(vm, r):
+    f = r
+    while isinstance(f, Ref): f = vm.ref_get(f)
+    if not (isinstance(f, Opaque) and f.kind == 'Formatter'): raise Unmodelled(f'formatter? {f!r}')
+    return f.data
+
+
+def join_parts(vm, parts):
+    if not parts: return const_str(vm, '')
+    if all(isinstance(p, str) for p in parts): return const_str(vm, ''.join(parts))
+    cur = None
+    from .std_str import str_concat
+    for p in parts:
+        p = const_str(vm, p) if isinstance(p, str) else p
+        cur = p if cur is None else str_concat(vm, cur, p)
+    return cur
+
+
+def push(vm, f, s):
+    """append a string value (py str / SymStr / BStr) to formatter f"""
+    if isinstance(s, BStr) and s.concrete() is not None: s = s.concrete()
+    elif isinstance(s, SymStr):
+        t = z3.simplify(s.term)
+        if z3.is_string_value(t): s = t.as_string()
+    if isinstance(s, str) and f.parts and isinstance(f.parts[-1], str): f.parts[-1] += s
+    else: f.parts.append(s)
+
+
+def display_into(vm, ty, ref, fref, debug=False):
+    """`<ty as Display>::fmt(ref, fref)` (or Debug); returns Result<(), fmt::Error> Adt"""
+    f = fmt_of(vm, fref)
+    ty = ty.strip()
+    v = ref
+    t = ty
+    while t.startswith('&'):
+        t = t[1:].lstrip(); t = t[4:] if t.startswith('mut ') else t
+        v = D1(vm, v)
+    head = type_head(t)[0]
+    tr = 'Debug' if debug else 'Display'
+    # crate impl?
+    if vm.mir.by_impl.get((tr, head, 'fmt')):
+        target = v if isinstance(v, Ref) else Ref(Cell(v))
+        return vm.call(f'<{t} as {tr}>::fmt', [target, fref], None, None, subst={})
+    x = D(vm, v)
+    if isinstance(x, RcVal): x = x.box.cell.v
+    if isinstance(x, Adt) and x.ty == 'Box':
+        inner = type_head(t)[1]
+        return display_into(vm, inner[0] if inner else '', vm.box_ptr(x), fref, debug)
+    if isinstance(x, Adt) and x.ty == 'Cow': x = D(vm, x.fields[0])
+    if isinstance(x, (SymStr, BStr)):
+        if debug: push(vm, f, '"'); push(vm, f, x); push(vm, f, '"')
+        else: push(vm, f, x)
+        return ok(UNIT)
+    if t == 'f64' or isinstance(x, float) or z3.is_fp(x):
+        from .std_str import fmt_float
+        push(vm, f, fmt_float(vm, x)); return ok(UNIT)
+    if isinstance(x, bool): push(vm, f, 'true' if x else 'false'); return ok(UNIT)
+    if t == 'char':
+        push(vm, f, char_string(vm, x)); return ok(UNIT)
+    if isinstance(x, int): push(vm, f, str(x)); return ok(UNIT)
+    if is_sym(x) and z3.is_bv(x):
+        # symbolic integer: decimal rendering as an uninterpreted function of the value
+        push(vm, f, SymStr(int_to_str(vm.bv(x, 64)))); return ok(UNIT)
+    if isinstance(x, Opaque) and x.kind == 'Arguments':
+        render_args(vm, x, fref); return ok(UNIT)
+    raise Unmodelled(f'{tr} for {ty}: {x!r}')
+
+
+int_to_str = z3.Function('int_to_string', z3.BitVecSort(64), STR)
 
 
 def display_to_string(vm, ty, ref):
-    raise Unmodelled('Display::to_string for ' + ty)
+    fr = new_formatter()
+    r = conc(vm, display_into(vm, ty, ref, fr))
+    if r.variant == 1: raise PanicEdge('panic', 'a Display implementation returned an error (to_string panics)')
+    return join_parts(vm, fmt_of(vm, fr).parts)
+
+
+def decode_template(bs):
+    """this nightly's format_args bytecode -> list of ('lit', str) | ('arg', index, flags)"""
+    out, i, n, nxt = [], 0, len(bs), 0
+    lit = bytearray()
+    while i < n:
+        b = bs[i]
+        if b == 0: break
+        if b < 0x80:
+            lit += bytes(bs[i + 1:i + 1 + b]); i += 1 + b; continue
+        if b == 0x80:     # long literal: u16 length
+            ln = bs[i + 1] | (bs[i + 2] << 8); lit += bytes(bs[i + 3:i + 3 + ln]); i += 3 + ln; continue
+        if lit: out.append(('lit', lit.decode('utf-8'))); lit = bytearray()
+        if b == 0xC0:
+            out.append(('arg', nxt, 0)); nxt += 1; i += 1; continue
+        # placeholder with options: 0xC0 | bits, followed by option bytes
+        flags = b & 0x3F
+        i += 1
+        opts = {}
+        if flags & 1:      # flags word (u32)
+            opts['flags'] = int.from_bytes(bytes(bs[i:i + 4]), 'little'); i += 4
+        if flags & 2: opts['width'] = int.from_bytes(bytes(bs[i:i + 2]), 'little'); i += 2
+        if flags & 4: opts['precision'] = int.from_bytes(bytes(bs[i:i + 2]), 'little'); i += 2
+        if flags & 8: nxt = int.from_bytes(bytes(bs[i:i + 2]), 'little'); i += 2
+        if flags & ~0xF: raise Unmodelled(f'format placeholder options {flags:#x}')
+        out.append(('arg', nxt, opts)); nxt += 1
+    if lit: out.append(('lit', lit.decode('utf-8')))
+    return out
+
+
+def render_args(vm, args, fref):
+    f = fmt_of(vm, fref)
+    tmpl, argv = args.data
+    if isinstance(tmpl, str): push(vm, f, tmpl); return
+    for p in decode_template(tmpl):
+        if p[0] == 'lit': push(vm, f, p[1]); continue
+        if p[2] and (p[2].get('width') or p[2].get('precision')): raise Unmodelled('format width/precision')
+        a = argv[p[1]]
+        kind, ty, ref = a.data
+        if p[2] and p[2].get('flags'): f.alternate = True
+        r = conc(vm, display_into(vm, ty, ref, fref, debug=(kind == 'debug')))
+        f.alternate = False
+        if r.variant == 1: raise Unmodelled('fmt::Error propagated inside write!')
+
+
+@path('Arguments::new', 'Arguments::new_v1', 'Arguments::new_const', 'Arguments::from_str', 'Arguments::from_str_nonconst')
+def _(vm, a, ci):
+    t = a[0]
+    if ci.method in ('from_str', 'from_str_nonconst', 'new_const'):
+        s = D(vm, t)
+        if isinstance(s, SliceRef): s = vm.ref_get(s.ref).items[s.start]
+        return Opaque('Arguments', (z3.simplify(to_sym(s)).as_string(), []))
+    bs = vm.ref_get(t.ref).items[t.start:t.end] if isinstance(t, SliceRef) else None
+    if bs is None: raise Unmodelled('format template ' + repr(t))
+    argv = a[1] if len(a) > 1 else None
+    items = []
+    if argv is not None:
+        x = D(vm, argv)
+        items = x.items if isinstance(x, HList) else vm.ref_get(x.ref).items[x.start:x.end]
+    return Opaque('Arguments', (bytes(bs), list(items)))
+
+
+@path_rx(r'(?:fmt::)?(?:rt::)?Argument::new_(display|debug|lower_hex|upper_hex)')
+def _(vm, a, ci):
+    kind = ci.method[4:]
+    if kind not in ('display', 'debug'): raise Unmodelled('format trait ' + kind)
+    return Opaque('Argument', (kind, ci.fnargs[0] if ci.fnargs else '', a[0]))
+
+
+@path('format', 'fmt::format', 'std::fmt::format', 'alloc::fmt::format', 'format::format_inner')
+def _(vm, a, ci):
+    fr = new_formatter(); render_args(vm, a[0], fr)
+    return join_parts(vm, fmt_of(vm, fr).parts)
+
+
+@path('Formatter::write_str')
+def _(vm, a, ci):
+    from .std_str import S
+    push(vm, fmt_of(vm, a[0]), S(vm, a[1])); return ok(UNIT)
+
+
+@path('Formatter::write_char')
+def _(vm, a, ci): push(vm, fmt_of(vm, a[0]), char_string(vm, a[1])); return ok(UNIT)
+
+
+@trait(('Formatter', 'Write', 'write_str'), ('String', 'Write', 'write_str'))
+def _(vm, a, ci):
+    from .std_str import S, str_concat
+    tgt = a[0]; t = tgt
+    while isinstance(t, Ref): t = vm.ref_get(t)
+    if isinstance(t, Opaque): push(vm, t.data, S(vm, a[1]))
+    else: vm.ref_set(tgt, str_concat(vm, t, S(vm, a[1])))
+    return ok(UNIT)
+
+
+@trait(('Formatter', 'Write', 'write_char'), ('String', 'Write', 'write_char'))
+def _(vm, a, ci):
+    from .std_str import str_concat
+    tgt = a[0]; t = tgt
+    while isinstance(t, Ref): t = vm.ref_get(t)
+    if isinstance(t, Opaque): push(vm, t.data, char_string(vm, a[1]))
+    else: vm.ref_set(tgt, str_concat(vm, t, char_string(vm, a[1])))
+    return ok(UNIT)
+
+
+@path('Formatter::write_fmt')
+def _(vm, a, ci): render_args(vm, a[1], a[0]); return ok(UNIT)
+
+
+@trait(('Formatter', 'Write', 'write_fmt'), ('String', 'Write', 'write_fmt'))
+def _(vm, a, ci):
+    tgt = a[0]; t = tgt
+    while isinstance(t, Ref): t = vm.ref_get(t)
+    if isinstance(t, Opaque): render_args(vm, a[1], a[0]); return ok(UNIT)
+    fr = new_formatter(); render_args(vm, a[1], fr)
+    from .std_str import str_concat
+    vm.ref_set(tgt, str_concat(vm, t, join_parts(vm, fmt_of(vm, fr).parts)))
+    return ok(UNIT)
+
+
+@path('Formatter::alternate')
+def _(vm, a, ci): return fmt_of(vm, a[0]).alternate
+
+
+@path('Formatter::pad')
+def _(vm, a, ci):
+    from .std_str import S
+    push(vm, fmt_of(vm, a[0]), S(vm, a[1])); return ok(UNIT)
+
+
+@trait(('Display', 'fmt'), ('Debug', 'fmt'))
+def _(vm, a, ci):
+    return display_into(vm, ci.selfty, a[0], a[1], debug=(ci.trait == 'Debug'))
+
+
+@path_rx(r'Formatter::debug_(tuple|struct)_field(\d)_finish')
+def _(vm, a, ci):
+    """derived Debug: Name(f1, f2) / Name { a: f1, .. } -- compact form only"""
+    from .std_str import S
+    f = fmt_of(vm, a[0])
+    m = re.match(r'debug_(tuple|struct)_field(\d)_finish', ci.method)
+    kind, n = m.group(1), int(m.group(2))
+    push(vm, f, S(vm, a[1]))
+    rest = a[2:]
+    if kind == 'tuple':
+        push(vm, f, '(')
+        for i in range(n):
+            if i: push(vm, f, ', ')
+            debug_dyn(vm, rest[i], a[0])
+        push(vm, f, ')')
+    else:
+        push(vm, f, ' { ')
+        for i in range(n):
+            if i: push(vm, f, ', ')
+            push(vm, f, S(vm, rest[2 * i])); push(vm, f, ': ')
+            debug_dyn(vm, rest[2 * i + 1], a[0])
+        push(vm, f, ' }')
+    return ok(UNIT)
+
+
+def debug_dyn(vm, ref, fref):
+    """Debug of a `&dyn Debug`: dispatch on the runtime value"""
+    v = ref
+    while isinstance(v, Ref): v = vm.ref_get(v)
+    if isinstance(v, (Adt, SymEnum)) and vm.mir.by_impl.get(('Debug', v.ty, 'fmt')):
+        inner = ref
+        while isinstance(vm.ref_get(inner), Ref): inner = vm.ref_get(inner)
+        vm.run_fn(vm.mir.by_impl[('Debug', v.ty, 'fmt')][0], [inner, fref], {}); return
+    display_into(vm, '', ref, fref, debug=True)
+
+
+@path('Formatter::debug_list', 'Formatter::debug_map', 'Formatter::debug_set', 'Formatter::debug_struct', 'Formatter::debug_tuple')
+def _(vm, a, ci): raise Unmodelled('Debug builders')
